@@ -59,7 +59,7 @@ def run(ck, facts, tier):
         b = need_body(ck, facts, R, key)
         if not b:
             continue
-        ms = enum_matches(b.thir, "chalk_ir::GoalData")
+        ms = enum_matches(facts.thir(b.key), "chalk_ir::GoalData")
         if len(ms) != 1:
             ck.violation(R, "%s:match" % short(key), b.where(), "expected one match on GoalData")
             continue
@@ -100,7 +100,7 @@ def run(ck, facts, tier):
                "inserted into `closure`")
     vd = need_body(ck, facts, R, "<chalk_solve::clauses::env_elaborator::EnvElaborator as chalk_ir::visit::TypeVisitor>::visit_domain_goal")
     if vd:
-        ms = enum_matches(vd.thir, "chalk_ir::FromEnv")
+        ms = enum_matches(facts.thir(vd.key), "chalk_ir::FromEnv")
         if len(ms) != 1:
             ck.violation(R, "visit_domain_goal:match", vd.where(), "expected one match on FromEnv")
         else:
@@ -119,7 +119,7 @@ def run(ck, facts, tier):
             else:
                 ck.violation(R, "visit_domain_goal:FromEnv::Ty", vd.where(y["ln"]), "a FromEnv(Ty) hypothesis must elaborate the type")
         # only FromEnv hypotheses are elaborated: in the match / if-let on DomainGoal every other variant does nothing
-        dm = enum_matches(vd.thir, "chalk_ir::DomainGoal")
+        dm = enum_matches(facts.thir(vd.key), "chalk_ir::DomainGoal")
         okg = len(dm) == 1
         if okg:
             for v in facts.variants("chalk_ir::DomainGoal"):
